@@ -1312,6 +1312,31 @@ theorem rle_state_mem (path : List Int) : ∀ r ∈ rle path, r.state ∈ path :
   exact List.mem_of_getElem? this
 
 
+/-! ### Deepening round D: the `isfinite` assertion -/
+
+theorem mapM_id_some : ∀ p : List Int, (p.map some).mapM id = some p
+  | [] => rfl
+  | x :: xs => by
+    simp only [List.map_cons, List.mapM_cons, id_eq]
+    rw [mapM_id_some xs]; rfl
+
+theorem mapM_id_none : ∀ path : List (Option Int), none ∈ path → path.mapM id = none
+  | [], h => by simp at h
+  | none :: xs, _ => by simp [List.mapM_cons]
+  | some x :: xs, h => by
+    have h' : none ∈ xs := by simpa using h
+    simp only [List.mapM_cons, id_eq]
+    rw [mapM_id_none xs h']; rfl
+
+theorem all_some_or_none : ∀ path : List (Option Int), (∃ p : List Int, path = p.map some) ∨ none ∈ path
+  | [] => Or.inl ⟨[], rfl⟩
+  | none :: xs => Or.inr (by simp)
+  | some x :: xs => by
+    rcases all_some_or_none xs with ⟨p, rfl⟩ | h
+    · exact Or.inl ⟨x :: p, rfl⟩
+    · exact Or.inr (by simp [h])
+
+
 /-! ### Deepening round D: positivity (the code establishes `c_t ≠ 0`) -/
 
 section pos
